@@ -56,6 +56,8 @@ def check(env, rep, tier):
                         s.ghost["cmp_A"] = x
                     elif x == L.aff:
                         s.ghost["cmp_A"] = y
+                    if (y == L.aff or x == L.aff) and getattr(ctx, "cur_site", None):
+                        s.ghost["cmp_site"] = (ctx.cur_site.get("id"), ctx.cur_site.get("bb"), ctx.cur_site.get("si"))
             I.value_hooks.append(value_hook)
             I, res = run(prog, body, args=[a0, lim], st=st, I=I)
             obs = report_obligations(rep, "C04.4", I, include_cast=True)
@@ -73,6 +75,8 @@ def check(env, rep, tier):
                             present += 1
                 rep.floor("C04.4", "unsafe call sites covered (ptr::copy, ptr::add, set_len)", n_unsafe, present)
             n_ok = 0
+            # the comparison that lets messages through (its left side is the accounted length, C04.1/C04.2)
+            ok_cmp_sites = set(s_.ghost.get("cmp_site") for s_, rv_ in res if isinstance(rv_, EnumV) and 0 in rv_.variants and s_.ghost.get("cmp_site"))
             for s, rv in res:
                 if not isinstance(rv, EnumV):
                     rep.ob("C04.1", "ret|shape", False, "cannot establish: return value of %s not tracked" % INTERNAL)
@@ -101,6 +105,12 @@ def check(env, rep, tier):
                             if k == "InvalidPacketLength":
                                 cA = s.ghost.get("cmp_A")
                                 ok = mode == "some" and cA is not None and s.entails(cA - L.aff - 1)
+                                # ... decided by that same comparison, not by an earlier estimate (payload alone, ...)
+                                same = mode != "some" or s.ghost.get("cmp_site") in ok_cmp_sites
+                                rep.ob("C04.2", "%s|err-by-the-accounting-comparison|%s" % (INTERNAL, mode), same,
+                                       "Err(InvalidPacketLength) is returned after comparing something other than the accounted wire length with the limit "
+                                       "(an early estimate can exceed the limit for a message whose real image fits, e.g. the unsent payload of an Empty message)",
+                                       {"file": body["span"]["f"], "line": body["span"]["l"], "fn": INTERNAL})
                                 rep.ob("C04.2", "%s|err=>exceeds|%s" % (INTERNAL, mode), ok,
                                        "Err(InvalidPacketLength) is returned on a path where the accounted length is not shown to exceed the limit"
                                        + (" (no limit was given)" if mode == "none" else ""),
